@@ -146,6 +146,31 @@ func floatBitsIssues(s *sided) []sideIssue {
 				}
 			}
 		}
+		// … or the bits are taken only of a value that was established not to be a zero: `if x == 0 { return … }` before it
+		if len(c.Args) == 1 {
+			arg := c.Args[0]
+			if cv, ok := unparen(arg).(*ast.CallExpr); ok && len(cv.Args) == 1 && isTypeExpr(s.rs, cv.Fun) {
+				arg = cv.Args[0] // float64(x)
+			} else if cv, ok := unparen(arg).(*ast.CallExpr); ok && len(cv.Args) == 1 {
+				if id, ok := cv.Fun.(*ast.Ident); ok && (id.Name == "float64" || id.Name == "float32") {
+					arg = cv.Args[0]
+				}
+			}
+			nonZero := false
+			for _, g := range guardsOf(s.body, c) {
+				be, ok := unparen(g.e).(*ast.BinaryExpr)
+				if !ok {
+					continue
+				}
+				zero := func(e ast.Expr) bool { bl, ok := unparen(e).(*ast.BasicLit); return ok && (bl.Value == "0" || bl.Value == "0.0") }
+				if ((be.Op == token.EQL && !g.pos) || (be.Op == token.NEQ && g.pos)) && zero(be.Y) && canon(be.X) == canon(arg) {
+					nonZero = true
+				}
+			}
+			if nonZero {
+				return true
+			}
+		}
 		if len(c.Args) == 1 && s.side(c.Args[0]) == "A" {
 			out = append(out, sideIssue{c, fmt.Sprintf("hashes %s by its bit pattern (math.%s) while derived Equal compares the same leaf with ==: +0 and -0 are == but have different bit patterns, so Equal values hash differently", s.rs.src(c.Args[0]), sel.Sel.Name), "float-bits", ""})
 		}
